@@ -168,7 +168,7 @@ def build(case):
             np.save(bio, arr)
             spec.extra_files['_phy_spikes_subset.%s.npy' % fn] = bio.getvalue()
         spec.notes['subset_without_raw'] = True
-    label = ['', 'lbl', '', 'a', 'n', 'clu', 't', 'probe00'][int(rng.integers(0, 8))]   # also labels that are prefixes of attribute names / extensions
+    label = ['', 'lbl', '', 'a', 'n', 'clu', 't', 'probe00', None][int(rng.integers(0, 9))]      # (None: no label, like '')   # also labels that are prefixes of attribute names / extensions
     factor = [1, 2.5][int(rng.integers(0, 2))]
     return spec, opts, label, factor
 
